@@ -242,10 +242,29 @@ def loop_exits(f):
     """[(kind, guard text)] for every break/continue of f, guard = innermost enclosing if-test"""
     out = []
     cfg = CFG(f)
+    # loops directly followed by a `return`: leaving such a loop with `break` is leaving the function
+    tail_ret = set()
+    for blk in _blocks_all(f.body):
+        for a, b in zip(blk, blk[1:]):
+            if isinstance(a, (ast.For, ast.While)) and isinstance(b, ast.Return) and not a.orelse:
+                tail_ret.add(id(a))
     for s in iter_child_stmts(f.body):
         if isinstance(s, (ast.Break, ast.Continue)):
-            tests = [norm(e.test) for e, fld in cfg.enclosing_tests(s) if isinstance(e, ast.If)]
-            out.append([type(s).__name__.lower(), tests[-1] if tests else ''])
+            enc = cfg.enclosing_tests(s)
+            tests = [norm(e.test) for e, fld in enc if isinstance(e, ast.If)]
+            loops = [e for e, fld in enc if isinstance(e, (ast.For, ast.While))]
+            out.append([type(s).__name__.lower(), tests[-1] if tests else '', bool(isinstance(s, ast.Break) and loops and id(loops[-1]) in tail_ret)])
+    return out
+
+
+def _return_guards(f):
+    """tests of the ifs inside loops whose body ends in `return`"""
+    out = set()
+    for lp in walk_no_nested(f):
+        if isinstance(lp, (ast.For, ast.While)):
+            for x in ast.walk(lp):
+                if isinstance(x, ast.If) and x.body and isinstance(x.body[-1], ast.Return):
+                    out.add(norm(x.test))
     return out
 
 
@@ -265,12 +284,17 @@ def loop_exit_rule(ctx, rule, callers=None):
             continue
         cur = loop_exits(f)
         guards_now = {norm(x.test) for x in ast.walk(f) if isinstance(x, ast.If)}
-        for kind, guard in ref[name]:
+        ret_guards = _return_guards(f)
+        for ent in ref[name]:
+            kind, guard = ent[0], ent[1]
             n += 1
-            same = [k for k, g in cur if g == guard]
+            same = [e[0] for e in cur if e[1] == guard]
             if guard not in guards_now and guard:
                 continue        # the guard itself was rewritten: not comparable
             ok = kind in same
+            # `flag = v; break` + `return flag` after the loop and `return v` inside it leave the function the same way
+            if not ok and kind == 'break' and len(ent) > 2 and ent[2] and guard in ret_guards:
+                ok = True
             ctx.ob(rule, '%s:%s-under-`%s`-still-a-%s' % (name, kind, guard[:50], kind), ok,
                    'on the reference tree `if %s:` ends in `%s`; now it ends in %s' % (guard[:70], kind, same or 'no loop exit'),
                    m.loc(f))
